@@ -27,13 +27,13 @@ theorem c16_ids_addressed (sv : Server) (i : Ident) (m : Method) (rv : Option Re
 /-- no revision the client remembers is ahead of the server's counter for that document -/
 def RevInv (w : W) : Prop := ∀ q r, (q, r) ∈ w.cl.revs → r ≤ genOf w.sv (unquote q)
 
-theorem revInv_of_frame {w w' : W} {A : Quoted → Prop} (hI : RevInv w) (hf : Frame w w' A) : RevInv w' := by
+private theorem revInv_of_frame {w w' : W} {A : Quoted → Prop} (hI : RevInv w) (hf : Frame w w' A) : RevInv w' := by
   intro q r hm
   rcases hf.2.1 q r hm with h | ⟨_, h⟩
   · exact Nat.le_trans (hI q r h) (hf.1 _)
   · exact h
 
-theorem frame_step (w : W) (op : Op) : ∃ A, Frame w (step w op).1 A := by
+private theorem frame_step (w : W) (op : Op) : ∃ A, Frame w (step w op).1 A := by
   cases op with
   | client op plan =>
     refine ⟨addrs { w with plan := plan, log := [] } op, ?_⟩
@@ -86,7 +86,7 @@ theorem c16_ext_delete_behind (w : W) (i : Ident) (hI : RevInv w) (hl : (live w.
   rw [extDelete_eq, if_pos hl, genOf_write_same]
   exact Nat.lt_succ_of_le this
 
-theorem behind_of_frame {w w' : W} {A : Quoted → Prop} {i : Ident} (hb : Behind w i) (hf : Frame w w' A)
+private theorem behind_of_frame {w w' : W} {A : Quoted → Prop} {i : Ident} (hb : Behind w i) (hf : Frame w w' A)
     (hA : ¬ A (quote i)) : Behind w' i := by
   intro r hm
   rcases hf.2.1 _ _ hm with h | ⟨h, _⟩
@@ -123,7 +123,7 @@ theorem c16_behind_run (i : Ident) (ops : List Op) : ∀ w, Behind w i → Avoid
   | nil => intro w h _; exact h
   | cons op r ih => intro w h ha; exact ih _ (c16_behind_step w op i h ha.1) ha.2
 
-theorem not_live_of_behind {w : W} {i : Ident} (hb : Behind w i) :
+private theorem not_live_of_behind {w : W} {i : Ident} (hb : Behind w i) :
     ∀ r d, AList.get (quote i) w.cl.revs = some r → live w.sv (unquote (quote i)) ≠ some (r, d) := by
   intro r d hg hl
   rw [unquote_quote] at hl
@@ -158,7 +158,7 @@ theorem c16_commit_stale (w : W) (h : Nat) (x : Obj) (q : Quoted) (hx : getObj w
         | (rename_i heq _ _ _; exact ⟨by rw [(eq_of_request heq).1]; exact hs, trivial⟩)
 
 
-theorem request_nofault (w : W) (rq : Req) (hp : w.plan = []) :
+private theorem request_nofault (w : W) (rq : Req) (hp : w.plan = []) :
     request w rq = ({ w with sv := (serve w.sv rq).1, log := w.log ++ [(rq, .resp (serve w.sv rq).2)] },
                     classify rq.method (.resp (serve w.sv rq).2)) := by
   unfold request; rw [hp]
@@ -243,7 +243,7 @@ theorem c16_no_lost_delete (hist mid : List Op) (i : Ident) (d : Data) (plan : L
 
 /-! ## 4. A commit from an up-to-date replica is what every later reader sees -/
 
-theorem serveDoc_put_current (sv : Server) (i : Ident) (q : Quoted) (g : Rev) (d0 d : Data) (hl : live sv i = some (g, d0)) :
+private theorem serveDoc_put_current (sv : Server) (i : Ident) (q : Quoted) (g : Rev) (d0 d : Data) (hl : live sv i = some (g, d0)) :
     serveDoc sv i ⟨.PUT, .doc q, some g, some d⟩ = (write sv i (some d), ⟨201, true, .written i (g + 1), some (g + 1)⟩) := by
   simp [serveDoc, hl]
 
@@ -373,7 +373,7 @@ theorem c16_errors_fault (m : Method) (k : FaultKind)
       · cases jt <;> cases jb <;> simp_all [Outcome.isError]
       · cases jt <;> cases jb <;> simp [h2, hm, Outcome.isError]
 
-theorem excOf_isError {o : Outcome} (h : o.isError) :
+private theorem excOf_isError {o : Outcome} (h : o.isError) :
     (∃ c, o = .serverError c ∧ excOf o = .serverError c) ∨ (o = .responseError ∧ excOf o = .responseError) ∨
     (o = .connectionError ∧ excOf o = .connectionError) := by
   cases o <;> simp [Outcome.isError, excOf] at h ⊢
@@ -456,7 +456,7 @@ theorem c16_errors_iterLoop_stop (i : Ident) (rest : List Ident) (w : W) (acc : 
 
 /-! ## 6. No phantom object: bookkeeping agrees with the server -/
 
-theorem serveDoc_not_ok_unchanged (sv : Server) (i : Ident) (rq : Req)
+private theorem serveDoc_not_ok_unchanged (sv : Server) (i : Ident) (rq : Req)
     (h : ∀ b, classify rq.method (.resp (serveDoc sv i rq).2) ≠ .ok b) : (serveDoc sv i rq).1 = sv := by
   unfold serveDoc at h ⊢
   cases hm : rq.method <;> simp only [hm] at h ⊢
@@ -487,7 +487,7 @@ theorem serveDoc_not_ok_unchanged (sv : Server) (i : Ident) (rq : Req)
       · simp only [hr, if_true] at h; exact absurd rfl (h _)
       · simp [hr]
 
-theorem serve_not_ok_unchanged (sv : Server) (rq : Req)
+private theorem serve_not_ok_unchanged (sv : Server) (rq : Req)
     (h : ∀ b, classify rq.method (.resp (serve sv rq).2) ≠ .ok b) : (serve sv rq).1 = sv := by
   unfold serve at h ⊢
   cases ht : rq.target with
@@ -500,7 +500,7 @@ theorem serve_not_ok_unchanged (sv : Server) (rq : Req)
     · simp only [hq, if_false] at h ⊢
       exact serveDoc_not_ok_unchanged _ _ _ h
 
-theorem serve_head_unchanged (sv : Server) (rq : Req) (hm : rq.method = .HEAD) : (serve sv rq).1 = sv := by
+private theorem serve_head_unchanged (sv : Server) (rq : Req) (hm : rq.method = .HEAD) : (serve sv rq).1 = sv := by
   apply serve_not_ok_unchanged
   intro b hb
   simp only [classify, hm] at hb
@@ -510,10 +510,10 @@ theorem serve_head_unchanged (sv : Server) (rq : Req) (hm : rq.method = .HEAD) :
 /-- a call's plan injects only faults whose request does not reach the server (the answer is replaced, nothing is lost) -/
 def Unprocessed (plan : List (Option Fault)) : Prop := ∀ f, some f ∈ plan → f.processed = false
 
-theorem request_plan (w : W) (rq : Req) : (request w rq).1.plan = w.plan.tail := by
+private theorem request_plan (w : W) (rq : Req) : (request w rq).1.plan = w.plan.tail := by
   unfold request; split <;> simp_all
 
-theorem request_not_ok_unchanged (w : W) (rq : Req) (hu : Unprocessed w.plan)
+private theorem request_not_ok_unchanged (w : W) (rq : Req) (hu : Unprocessed w.plan)
     (h : ∀ b, (request w rq).2 ≠ .ok b) : (request w rq).1.sv = w.sv := by
   cases hp : w.plan with
   | nil =>
@@ -528,13 +528,13 @@ theorem request_not_ok_unchanged (w : W) (rq : Req) (hu : Unprocessed w.plan)
       have : f.processed = false := hu f (by rw [hp]; exact List.mem_cons_self)
       simp [request, hp, this]
 
-theorem request_head_unchanged (w : W) (q : Quoted) (rv dt) : (request w ⟨.HEAD, .doc q, rv, dt⟩).1.sv = w.sv := by
+private theorem request_head_unchanged (w : W) (q : Quoted) (rv dt) : (request w ⟨.HEAD, .doc q, rv, dt⟩).1.sv = w.sv := by
   rcases (request_cases w ⟨.HEAD, .doc q, rv, dt⟩).2 with ⟨h, _⟩ | ⟨_, h | h, _⟩
   · rw [h]; exact serve_head_unchanged _ _ rfl
   · exact h
   · rw [h]; exact serve_head_unchanged _ _ rfl
 
-theorem unprocessed_tail {plan : List (Option Fault)} (h : Unprocessed plan) : Unprocessed plan.tail :=
+private theorem unprocessed_tail {plan : List (Option Fault)} (h : Unprocessed plan) : Unprocessed plan.tail :=
   fun f hf => h f (List.mem_of_mem_tail hf)
 
 /-- `discard` (as patched) is atomic w.r.t. the server: if it raises — and no answer was lost after execution — the server is
@@ -580,7 +580,7 @@ theorem c16_discard_atomic (w : W) (h : Nat) (safe : Bool) (hu : Unprocessed w.p
           | (rename_i h1 _ _ _; rw [(eq_of_request h1).1]; exact request_head_unchanged _ _ _ _)
 
 
-theorem discardWith_ok (w : W) (h : Nat) (x : Obj) (q : Quoted) (r : Rev) (hr : (discardWith true w h x q r).2 = .unit) :
+private theorem discardWith_ok (w : W) (h : Nat) (x : Obj) (q : Quoted) (r : Rev) (hr : (discardWith true w h x q r).2 = .unit) :
     AList.get q (discardWith true w h x q r).1.cl.revs = none ∧
     AList.get x.id (discardWith true w h x q r).1.cl.cache = none ∧
     getObj (discardWith true w h x q r).1 h = some { x with source := none } ∧
@@ -612,7 +612,7 @@ theorem c16_discard_bookkeeping (w : W) (h : Nat) (safe : Bool) (x : Obj) (hx : 
     all_goals simp at hr
 
 /-- a DELETE that the server itself answered with success removed the document -/
-theorem serve_delete_ok (sv : Server) (i : Ident) (r : Rev) (b : Body)
+private theorem serve_delete_ok (sv : Server) (i : Ident) (r : Rev) (b : Body)
     (h : classify .DELETE (.resp (serve sv ⟨.DELETE, .doc (quote i), some r, none⟩).2) = .ok b) :
     live (serve sv ⟨.DELETE, .doc (quote i), some r, none⟩).1 i = none := by
   rw [serve_doc_quote] at h ⊢
@@ -670,7 +670,7 @@ theorem c16_add_bookkeeping (w : W) (h : Nat) (x : Obj) (hx : getObj w h = some 
     simp [setObj, setRev, hw, hg]
   all_goals simp at hr
 
-theorem serve_put_ok_written (sv : Server) (q : Quoted) (rv : Option Rev) (dt : Option Data) (b : Body)
+private theorem serve_put_ok_written (sv : Server) (q : Quoted) (rv : Option Rev) (dt : Option Data) (b : Body)
     (h : classify .PUT (.resp (serve sv ⟨.PUT, .doc q, rv, dt⟩).2) = .ok b) : ∃ i g, b = .written i g := by
   simp only [serve] at h
   by_cases hq : 47 ∈ q
@@ -760,6 +760,756 @@ theorem c16_pinned_discard_phantom :
     live phantomWorld.sv [97] = some (1, 7) ∧ live (discardPinned phantomWorld 0 false).1.sv [97] = none ∧
     (discard phantomWorld 0 false).2 = .unit := by
   decide
+
+
+
+/-! ## 7. A single client (no faults, no other writer) refines a persistent map -/
+
+/-- the abstract map: identifier ↦ payload -/
+abbrev M := Ident → Option Data
+def abs (w : W) : M := fun i => (live w.sv i).map Prod.snd
+def upd (m : M) (i : Ident) (v : Option Data) : M := fun j => if j = i then v else m j
+
+private theorem abs_write (w : W) (sv' : Server) (i : Ident) (b : Option Data) (h : sv' = write w.sv i b) (w' : W) (hw : w'.sv = sv') :
+    abs w' = upd (abs w) i b := by
+  funext j
+  unfold abs upd
+  rw [hw, h]
+  by_cases hj : j = i
+  · subst hj
+    cases b with
+    | none => simp [live_write_none]
+    | some d => simp [live_write_same]
+  · simp [hj, live_write_other _ _ hj]
+
+private theorem classify_err_code (m : Method) (c : Nat) (hc : 300 ≤ c) (hm : m ≠ .HEAD) : classify m (.resp (err c)) = .serverError c := by
+  simp only [classify, err]
+  have : ¬ (200 ≤ c ∧ c < 300) := by omega
+  simp [this, hm]
+
+private theorem classify_ok (m : Method) (st : Nat) (b : Body) (e : Option Rev) (hs : 200 ≤ st ∧ st < 300) (hm : m ≠ .HEAD)
+    (h1 : b ≠ .notJson) (h2 : b ≠ .empty) : classify m (.resp ⟨st, true, b, e⟩) = .ok b := by
+  simp only [classify]
+  simp only [hs, not_true_eq_false, if_false, hm]
+  cases b <;> simp_all
+
+private theorem classify_head_ok (st : Nat) (b : Body) (e : Option Rev) (hs : 200 ≤ st ∧ st < 300) :
+    classify .HEAD (.resp ⟨st, true, b, e⟩) = .headers e := by
+  simp [classify, hs]
+
+private theorem classify_head_404 : classify .HEAD (.resp ⟨404, true, .empty, none⟩) = .serverError 404 := by
+  simp [classify]
+
+/-- single client, nobody else writes, no faults: the client knows the current revision of every live document and every
+    bound object is bound to its own document -/
+structure Sync (w : W) : Prop where
+  revs : ∀ i g d, live w.sv i = some (g, d) → AList.get (quote i) w.cl.revs = some g
+  src : ∀ h x q, getObj w h = some x → x.source = some q → q = quote x.id
+
+/-! ### add -/
+
+theorem c16_map_add_dup (w : W) (h : Nat) (x : Obj) (hx : getObj w h = some x) (hp : w.plan = [])
+    (hd : abs w x.id ≠ none) : (add w h).2 = .raise .keyError ∧ (add w h).1.sv = w.sv ∧ (add w h).1.cl = w.cl := by
+  unfold abs at hd
+  cases hl : live w.sv x.id with
+  | none => simp [hl] at hd
+  | some p =>
+    obtain ⟨g, d⟩ := p
+    unfold add
+    simp only [hx, request_nofault _ _ hp, serve_doc_quote]
+    simp only [serveDoc, hl]
+    simp only [show (none : Option Rev) = some g ↔ False by simp, if_false]
+    rw [classify_err_code _ _ (by decide) (by decide)]
+    exact ⟨rfl, rfl, rfl⟩
+
+theorem c16_map_add_new (w : W) (h : Nat) (x : Obj) (hx : getObj w h = some x) (hp : w.plan = [])
+    (hd : abs w x.id = none) :
+    (add w h).2 = .unit ∧ abs (add w h).1 = upd (abs w) x.id (some x.data) := by
+  unfold abs at hd
+  cases hl : live w.sv x.id with
+  | some p => simp [hl] at hd
+  | none =>
+    unfold add
+    simp only [hx, request_nofault _ _ hp, serve_doc_quote]
+    simp only [serveDoc, hl, if_true]
+    rw [classify_ok _ _ _ _ (by decide) (by decide) (by simp) (by simp)]
+    refine ⟨rfl, ?_⟩
+    exact abs_write w _ x.id (some x.data) rfl _ rfl
+
+
+/-! ### lookup, membership -/
+
+theorem c16_map_get_missing (w : W) (i : Ident) (hp : w.plan = []) (hd : abs w i = none) :
+    (getByCouchId w i).2 = .raise .keyError ∧ (getByCouchId w i).1.sv = w.sv ∧ (getByCouchId w i).1.cl = w.cl := by
+  unfold abs at hd
+  cases hl : live w.sv i with
+  | some p => simp [hl] at hd
+  | none =>
+    unfold getByCouchId
+    simp only [request_nofault _ _ hp, serve_doc_quote]
+    simp only [serveDoc, hl]
+    rw [classify_err_code _ _ (by decide) (by decide)]
+    exact ⟨rfl, rfl, rfl⟩
+
+theorem c16_map_get_present (w : W) (i : Ident) (d : Data) (hp : w.plan = []) (hd : abs w i = some d) :
+    ∃ h, (getByCouchId w i).2 = .handle h ∧ getObj (getByCouchId w i).1 h = some ⟨i, d, some (quote i)⟩ ∧
+      (getByCouchId w i).1.sv = w.sv := by
+  unfold abs at hd
+  cases hl : live w.sv i with
+  | none => simp [hl] at hd
+  | some p =>
+    obtain ⟨g, d'⟩ := p
+    simp [hl] at hd; subst hd
+    obtain ⟨h, a, b, c, _⟩ := c16_get_reads_live w i g d' hp hl
+    exact ⟨h, a, b, c⟩
+
+theorem c16_map_contains (w : W) (i : Ident) (hp : w.plan = []) :
+    (contains w i).2 = .bool (abs w i).isSome ∧ (contains w i).1.sv = w.sv ∧ (contains w i).1.cl = w.cl := by
+  unfold contains abs
+  simp only [request_nofault _ _ hp, serve_doc_quote]
+  cases hl : live w.sv i with
+  | none =>
+    simp only [serveDoc, hl]
+    rw [classify_head_404]
+    exact ⟨rfl, rfl, rfl⟩
+  | some p =>
+    obtain ⟨g, d⟩ := p
+    simp only [serveDoc, hl]
+    rw [classify_head_ok _ _ _ (by decide)]
+    exact ⟨rfl, rfl, rfl⟩
+
+/-! ### commit / update of a bound replica -/
+
+theorem c16_map_commit_unbound (w : W) (h : Nat) (x : Obj) (hx : getObj w h = some x) (hs : x.source = none) :
+    commit w h = (w, .unit) := by
+  unfold commit; simp [hx, hs]
+
+theorem c16_map_commit_present (w : W) (hS : Sync w) (h : Nat) (x : Obj) (hx : getObj w h = some x)
+    (hs : x.source ≠ none) (hp : w.plan = []) (hd : abs w x.id ≠ none) :
+    (commit w h).2 = .unit ∧ abs (commit w h).1 = upd (abs w) x.id (some x.data) := by
+  cases hq : x.source with
+  | none => exact absurd hq hs
+  | some q =>
+    have hqe : q = quote x.id := hS.src h x q hx hq
+    subst hqe
+    unfold abs at hd
+    cases hl : live w.sv x.id with
+    | none => simp [hl] at hd
+    | some p =>
+      obtain ⟨g, d0⟩ := p
+      have hr := hS.revs _ _ _ hl
+      obtain ⟨a, b, _, c⟩ := c16_commit_visible w h x x.id g d0 hx hq hp hr hl
+      refine ⟨a, ?_⟩
+      funext j
+      unfold abs upd
+      by_cases hj : j = x.id
+      · subst hj; simp [b]
+      · simp [hj, c j hj]
+
+theorem c16_map_commit_missing (w : W) (hS : Sync w) (h : Nat) (x : Obj) (hx : getObj w h = some x)
+    (hs : x.source ≠ none) (hd : abs w x.id = none) :
+    isRaise (commit w h).2 ∧ (commit w h).1.sv = w.sv := by
+  cases hq : x.source with
+  | none => exact absurd hq hs
+  | some q =>
+    have hqe : q = quote x.id := hS.src h x q hx hq
+    subst hqe
+    have := c16_commit_stale w h x (quote x.id) hx hq (by
+      intro r d _ hl
+      rw [unquote_quote] at hl
+      unfold abs at hd; simp [hl] at hd)
+    exact ⟨this.2, this.1⟩
+
+theorem c16_map_update_unbound (w : W) (h : Nat) (x : Obj) (hx : getObj w h = some x) (hs : x.source = none) :
+    update w h = (w, .unit) := by
+  unfold update; simp [hx, hs]
+
+theorem c16_map_update_present (w : W) (hS : Sync w) (h : Nat) (x : Obj) (hx : getObj w h = some x)
+    (hs : x.source ≠ none) (hp : w.plan = []) (d : Data) (hd : abs w x.id = some d) :
+    (update w h).2 = .unit ∧ getObj (update w h).1 h = some ⟨x.id, d, x.source⟩ := by
+  cases hq : x.source with
+  | none => exact absurd hq hs
+  | some q =>
+    have hqe : q = quote x.id := hS.src h x q hx hq
+    subst hqe
+    unfold abs at hd
+    cases hl : live w.sv x.id with
+    | none => simp [hl] at hd
+    | some p =>
+      obtain ⟨g, d'⟩ := p
+      simp [hl] at hd; subst hd
+      obtain ⟨a, b, _⟩ := c16_update_reads_live w h x x.id g d' hx hq hp hl
+      exact ⟨a, b⟩
+
+theorem c16_map_update_missing (w : W) (hS : Sync w) (h : Nat) (x : Obj) (hx : getObj w h = some x)
+    (hs : x.source ≠ none) (hp : w.plan = []) (hd : abs w x.id = none) :
+    (update w h).2 = .raise .keyError ∧ (update w h).1.sv = w.sv ∧ (update w h).1.cl = w.cl := by
+  cases hq : x.source with
+  | none => exact absurd hq hs
+  | some q =>
+    have hqe : q = quote x.id := hS.src h x q hx hq
+    subst hqe
+    unfold abs at hd
+    cases hl : live w.sv x.id with
+    | some p => simp [hl] at hd
+    | none =>
+      unfold update
+      simp only [hx, hq, request_nofault _ _ hp, serve_doc_quote]
+      simp only [serveDoc, hl]
+      rw [classify_err_code _ _ (by decide) (by decide)]
+      exact ⟨rfl, rfl, rfl⟩
+
+
+/-! ### discard -/
+
+private theorem discardWith_current (w : W) (h : Nat) (x : Obj) (i : Ident) (g : Rev) (d : Data) (hp : w.plan = [])
+    (hl : live w.sv i = some (g, d)) :
+    (discardWith true w h x (quote i) g).2 = .unit ∧ (discardWith true w h x (quote i) g).1.sv = write w.sv i none := by
+  unfold discardWith
+  simp only [request_nofault _ _ hp, serve_doc_quote]
+  simp only [serveDoc, hl, if_true]
+  rw [classify_ok _ _ _ _ (by decide) (by decide) (by simp) (by simp)]
+  simp [setObj]
+
+theorem c16_map_discard_present (w : W) (hS : Sync w) (h : Nat) (safe : Bool) (x : Obj) (hx : getObj w h = some x)
+    (hp : w.plan = []) (hd : abs w x.id ≠ none) :
+    (discard w h safe).2 = .unit ∧ abs (discard w h safe).1 = upd (abs w) x.id none := by
+  unfold abs at hd
+  cases hl : live w.sv x.id with
+  | none => simp [hl] at hd
+  | some p =>
+    obtain ⟨g, d⟩ := p
+    have hr := hS.revs _ _ _ hl
+    unfold discard discardG
+    simp only [hx, hr]
+    cases safe with
+    | true =>
+      simp only []
+      obtain ⟨a, b⟩ := discardWith_current w h x x.id g d hp hl
+      exact ⟨a, abs_write w _ x.id none b _ rfl⟩
+    | false =>
+      simp only [request_nofault _ _ hp, serve_doc_quote]
+      simp only [serveDoc, hl]
+      rw [classify_head_ok _ _ _ (by decide)]
+      simp only []
+      obtain ⟨a, b⟩ := discardWith_current { w with log := w.log ++ [_] } h x x.id g d hp hl
+      exact ⟨a, abs_write w _ x.id none b _ rfl⟩
+
+theorem c16_map_discard_missing (w : W) (h : Nat) (safe : Bool) (x : Obj) (hx : getObj w h = some x)
+    (hp : w.plan = []) (hd : abs w x.id = none) :
+    isRaise (discard w h safe).2 ∧ (discard w h safe).1.sv = w.sv := by
+  have hl : live w.sv x.id = none := by
+    unfold abs at hd
+    cases hl : live w.sv x.id with
+    | none => rfl
+    | some p => simp [hl] at hd
+  cases safe with
+  | true =>
+    have := c16_safe_delete_stale w h x hx (by intro f rest hf; rw [hp] at hf; cases hf) (by
+      intro r d _ hl'; rw [hl] at hl'; cases hl')
+    exact ⟨this.2, this.1⟩
+  | false =>
+    unfold discard discardG
+    simp only [hx, request_nofault _ _ hp, serve_doc_quote]
+    simp only [serveDoc, hl]
+    rw [classify_head_404]
+    exact ⟨trivial, rfl⟩
+
+/-! ### len / iteration -/
+
+private theorem live_isSome_of_mem {docs : List (Ident × Doc)} (hn : (AList.keys docs).Nodup) {i : Ident} {dc : Doc}
+    (hm : (i, dc) ∈ docs) : AList.get i docs = some dc := by
+  induction docs with
+  | nil => cases hm
+  | cons hd t ih =>
+    obtain ⟨k, v⟩ := hd
+    have hn' : k ∉ AList.keys t ∧ (AList.keys t).Nodup := by simpa [AList.keys, List.nodup_cons] using hn
+    rcases List.mem_cons.1 hm with e | hm'
+    · cases e; simp [AList.get]
+    · have hk : k ≠ i := by
+        intro e; apply hn'.1; rw [e]; exact AList.mem_keys_of_get (ih hn'.2 hm')
+      simp [AList.get, hk, ih hn'.2 hm']
+
+/-- the `_all_docs` listing enumerates exactly the domain of the abstract map, each identifier once -/
+theorem c16_liveIds_enumerates (w : W) (hn : DocsInv w.sv) :
+    (liveIds w.sv).Nodup ∧ ∀ i, i ∈ liveIds w.sv ↔ (abs w i).isSome := by
+  constructor
+  · unfold liveIds
+    have : ((w.sv.docs.filter (fun p => p.2.body.isSome)).map Prod.fst).Sublist (AList.keys w.sv.docs) := by
+      unfold AList.keys
+      exact List.Sublist.map _ List.filter_sublist
+    exact this.nodup hn
+  · intro i
+    unfold liveIds abs live lookup
+    constructor
+    · intro hm
+      obtain ⟨⟨k, dc⟩, hmem, hk⟩ := List.mem_map.1 hm
+      simp only at hk; subst hk
+      obtain ⟨hin, hb⟩ := List.mem_filter.1 hmem
+      rw [live_isSome_of_mem hn hin]
+      obtain ⟨g, b⟩ := dc
+      cases b with
+      | none => simp at hb
+      | some d => simp
+    · intro hs
+      cases hg : AList.get i w.sv.docs with
+      | none => simp [hg] at hs
+      | some dc =>
+        obtain ⟨g, b⟩ := dc
+        cases b with
+        | none => simp [hg] at hs
+        | some d =>
+          exact List.mem_map.2 ⟨(i, ⟨g, some d⟩), List.mem_filter.2 ⟨mem_of_get hg, by simp⟩, rfl⟩
+
+theorem c16_map_len (w : W) (hp : w.plan = []) :
+    (len w).2 = .nat (liveIds w.sv).length ∧ (len w).1.sv = w.sv ∧ (len w).1.cl = w.cl := by
+  unfold len
+  simp only [request_nofault _ _ hp]
+  simp only [serve]
+  rw [classify_ok _ _ _ _ (by decide) (by decide) (by simp) (by simp)]
+  exact ⟨rfl, rfl, rfl⟩
+
+
+/-! ### the single-client invariant is preserved -/
+
+private theorem sync_congr {w w' : W} (hr : w'.cl.revs = w.cl.revs) (ho : w'.cl.objs = w.cl.objs) (hs : w'.sv = w.sv)
+    (h : Sync w) : Sync w' :=
+  ⟨fun i g d hl => by rw [hr]; exact h.revs i g d (by rw [← hs]; exact hl),
+   fun hh x q hx hq => h.src hh x q (by unfold getObj at hx ⊢; rw [← ho]; exact hx) hq⟩
+
+private theorem sync_setRev {w : W} (h : Sync w) (i : Ident) (g : Rev) (d : Data) (hl : live w.sv i = some (g, d)) :
+    Sync (setRev w (quote i) g) := by
+  refine ⟨fun j g' d' hl' => ?_, fun hh x q hx hq => h.src hh x q hx hq⟩
+  by_cases hj : j = i
+  · subst hj
+    have hl'' : live w.sv j = some (g', d') := hl'
+    rw [hl] at hl''; cases hl''
+    simp [setRev]
+  · have : quote j ≠ quote i := fun e => hj (quote_injective e)
+    simp only [setRev]
+    rw [AList.get_set_other _ _ this]
+    exact h.revs j g' d' hl'
+
+private theorem sync_setObj {w : W} (h : Sync w) (hh : Nat) (x : Obj) (hx : ∀ q, x.source = some q → q = quote x.id) :
+    Sync (setObj w hh x) := by
+  refine ⟨fun j g d hl => h.revs j g d hl, fun h' x' q hx' hq => ?_⟩
+  by_cases e : h' = hh
+  · subst e
+    simp [getObj, setObj] at hx'
+    subst hx'
+    exact hx q hq
+  · simp only [getObj, setObj] at hx'
+    rw [AList.get_set_other _ _ e] at hx'
+    exact h.src h' x' q hx' hq
+
+private theorem sync_adopt {w : W} (h : Sync w) (i : Ident) (d : Data) : Sync (adopt w i d).1 := by
+  have hf : Sync (freshObj w i d).1 := by
+    refine ⟨fun j g d' hl => h.revs j g d' hl, fun h' x' q hx' hq => ?_⟩
+    by_cases e : h' = w.cl.next
+    · subst e
+      simp [getObj, freshObj] at hx'
+      subst hx'
+      simp at hq; exact hq.symm
+    · simp only [getObj, freshObj] at hx'
+      rw [AList.get_set_other _ _ e] at hx'
+      exact h.src h' x' q hx' hq
+  unfold adopt
+  split
+  · split
+    · split
+      · rename_i old _ hsrc
+        exact sync_setObj h _ _ (fun q hq => by simp [hsrc] at hq; exact hq.symm)
+      · exact hf
+    · exact hf
+  · exact hf
+
+theorem c16_sync_get (w : W) (hS : Sync w) (i : Ident) (hp : w.plan = []) :
+    Sync (getByCouchId w i).1 ∧ (getByCouchId w i).1.plan = [] ∧ (getByCouchId w i).1.sv = w.sv := by
+  unfold getByCouchId
+  simp only [request_nofault _ _ hp, serve_doc_quote]
+  cases hl : live w.sv i with
+  | none =>
+    simp only [serveDoc, hl]
+    rw [classify_err_code _ _ (by decide) (by decide)]
+    simp only []
+    exact ⟨sync_congr (w := w) rfl rfl rfl hS, hp, trivial⟩
+  | some p =>
+    obtain ⟨g, d⟩ := p
+    simp only [serveDoc, hl]
+    rw [classify_ok _ _ _ _ (by decide) (by decide) (by simp) (by simp)]
+    simp only []
+    have h1 : Sync ({ w with sv := w.sv, log := w.log ++ [(⟨.GET, .doc (quote i), none, none⟩,
+        Wire.resp ⟨200, true, .doc i g d, some g⟩)] } : W) := sync_congr (w := w) rfl rfl rfl hS
+    have h2 := sync_setRev h1 i g d hl
+    refine ⟨sync_adopt h2 i d, ?_, ?_⟩
+    · unfold adopt; repeat' split
+      all_goals simp [setObj, freshObj, setRev, hp]
+    · unfold adopt; repeat' split
+      all_goals simp [setObj, freshObj, setRev]
+
+
+private theorem sync_written {w : W} (h : Sync w) (i : Ident) (d : Data) (w' : W)
+    (hs : w'.sv = write w.sv i (some d)) (hr : w'.cl.revs = AList.set (quote i) (genOf w.sv i + 1) w.cl.revs)
+    (ho : w'.cl.objs = w.cl.objs) : Sync w' := by
+  refine ⟨fun j g d' hl => ?_, fun hh x q hx hq => h.src hh x q (by unfold getObj at hx ⊢; rw [← ho]; exact hx) hq⟩
+  rw [hs] at hl
+  rw [hr]
+  by_cases hj : j = i
+  · subst hj
+    rw [live_write_same] at hl; cases hl
+    simp
+  · rw [live_write_other _ _ hj] at hl
+    have : quote j ≠ quote i := fun e => hj (quote_injective e)
+    rw [AList.get_set_other _ _ this]
+    exact h.revs j g d' hl
+
+private theorem sync_deleted {w : W} (h : Sync w) (i : Ident) (w' : W)
+    (hs : w'.sv = write w.sv i none) (hr : w'.cl.revs = eraseKey (quote i) w.cl.revs)
+    (ho : w'.cl.objs = w.cl.objs) : Sync w' := by
+  refine ⟨fun j g d' hl => ?_, fun hh x q hx hq => h.src hh x q (by unfold getObj at hx ⊢; rw [← ho]; exact hx) hq⟩
+  rw [hs] at hl
+  rw [hr]
+  by_cases hj : j = i
+  · subst hj
+    rw [live_write_none] at hl; cases hl
+  · rw [live_write_other _ _ hj] at hl
+    have : quote j ≠ quote i := fun e => hj (quote_injective e)
+    rw [get_eraseKey_other _ this]
+    exact h.revs j g d' hl
+
+theorem c16_sync_add (w : W) (hS : Sync w) (h : Nat) (hp : w.plan = []) : Sync (add w h).1 := by
+  cases hx : getObj w h with
+  | none => unfold add; simp only [hx]; exact hS
+  | some x =>
+    by_cases hd : abs w x.id = none
+    · unfold abs at hd
+      cases hl : live w.sv x.id with
+      | some p => simp [hl] at hd
+      | none =>
+        unfold add
+        simp only [hx, request_nofault _ _ hp, serve_doc_quote]
+        simp only [serveDoc, hl, if_true]
+        rw [classify_ok _ _ _ _ (by decide) (by decide) (by simp) (by simp)]
+        simp only []
+        apply sync_setObj _ _ _ (fun q hq => by simp at hq; exact hq.symm)
+        exact sync_written hS x.id x.data _ rfl rfl rfl
+    · obtain ⟨_, h2, h3⟩ := c16_map_add_dup w h x hx hp hd
+      exact sync_congr (by rw [h3]) (by rw [h3]) h2 hS
+
+theorem c16_sync_commit (w : W) (hS : Sync w) (h : Nat) (hp : w.plan = []) : Sync (commit w h).1 := by
+  cases hx : getObj w h with
+  | none => unfold commit; simp only [hx]; exact hS
+  | some x =>
+    cases hq : x.source with
+    | none => rw [c16_map_commit_unbound w h x hx hq]; exact hS
+    | some q =>
+      have hqe : q = quote x.id := hS.src h x q hx hq
+      subst hqe
+      unfold commit
+      simp only [hx, hq]
+      cases hr : AList.get (quote x.id) w.cl.revs with
+      | none => exact hS
+      | some r =>
+        simp only [request_nofault _ _ hp, serve_doc_quote]
+        cases hl : live w.sv x.id with
+        | none =>
+          simp only [serveDoc, hl]
+          simp only [show (some r : Option Rev) = none ↔ False by simp, if_false]
+          rw [classify_err_code _ _ (by decide) (by decide)]
+          simp only []
+          exact sync_congr (w := w) rfl rfl rfl hS
+        | some p =>
+          obtain ⟨g, d0⟩ := p
+          have hrg : r = g := by
+            have := hS.revs _ _ _ hl; rw [hr] at this; cases this; rfl
+          subst hrg
+          simp only [serveDoc, hl, if_true]
+          rw [classify_ok _ _ _ _ (by decide) (by decide) (by simp) (by simp)]
+          simp only []
+          exact sync_written hS x.id x.data _ rfl (by simp [setRev, live_gen hl]) rfl
+
+theorem c16_sync_update (w : W) (hS : Sync w) (h : Nat) (hp : w.plan = []) : Sync (update w h).1 := by
+  cases hx : getObj w h with
+  | none => unfold update; simp only [hx]; exact hS
+  | some x =>
+    cases hq : x.source with
+    | none => rw [c16_map_update_unbound w h x hx hq]; exact hS
+    | some q =>
+      have hqe : q = quote x.id := hS.src h x q hx hq
+      subst hqe
+      unfold update
+      simp only [hx, hq, request_nofault _ _ hp, serve_doc_quote]
+      cases hl : live w.sv x.id with
+      | none =>
+        simp only [serveDoc, hl]
+        rw [classify_err_code _ _ (by decide) (by decide)]
+        simp only []
+        exact sync_congr (w := w) rfl rfl rfl hS
+      | some p =>
+        obtain ⟨g, d⟩ := p
+        simp only [serveDoc, hl]
+        rw [classify_ok _ _ _ _ (by decide) (by decide) (by simp) (by simp)]
+        simp only []
+        apply sync_setObj _ _ _ (fun q hq' => by simp [hq] at hq'; exact hq'.symm)
+        refine sync_setRev ?_ x.id g d hl
+        exact sync_congr (w := w) rfl rfl rfl hS
+
+
+private theorem discardWith_current_state (w : W) (h : Nat) (x : Obj) (i : Ident) (g : Rev) (d : Data) (hp : w.plan = [])
+    (hl : live w.sv i = some (g, d)) :
+    (discardWith true w h x (quote i) g).1 =
+      setObj { w with cl := { w.cl with revs := eraseKey (quote i) w.cl.revs, cache := eraseKey x.id w.cl.cache },
+                      sv := write w.sv i none,
+                      log := w.log ++ [(⟨.DELETE, .doc (quote i), some g, none⟩,
+                                        Wire.resp ⟨200, true, .written i (g + 1), some (g + 1)⟩)] } h { x with source := none } := by
+  unfold discardWith
+  simp only [request_nofault _ _ hp, serve_doc_quote]
+  simp only [serveDoc, hl, if_true]
+  rw [classify_ok _ _ _ _ (by decide) (by decide) (by simp) (by simp)]
+  simp
+
+theorem c16_sync_discard (w : W) (hS : Sync w) (h : Nat) (safe : Bool) (hp : w.plan = []) : Sync (discard w h safe).1 := by
+  cases hx : getObj w h with
+  | none => unfold discard discardG; simp only [hx]; exact hS
+  | some x =>
+    cases hl : live w.sv x.id with
+    | none =>
+      -- nothing to delete: every path raises without touching the bookkeeping
+      unfold discard discardG
+      simp only [hx]
+      cases safe with
+      | false =>
+        simp only [request_nofault _ _ hp, serve_doc_quote]
+        simp only [serveDoc, hl]
+        rw [classify_head_404]
+        simp only []
+        exact sync_congr (w := w) rfl rfl rfl hS
+      | true =>
+        cases hr : AList.get (quote x.id) w.cl.revs with
+        | none => exact hS
+        | some r =>
+          simp only []
+          unfold discardWith
+          simp only [request_nofault _ _ hp, serve_doc_quote]
+          simp only [serveDoc, hl]
+          rw [classify_err_code _ _ (by decide) (by decide)]
+          simp only []
+          exact sync_congr (w := w) rfl rfl rfl hS
+    | some p =>
+      obtain ⟨g, d⟩ := p
+      have hr := hS.revs _ _ _ hl
+      unfold discard discardG
+      simp only [hx, hr]
+      cases safe with
+      | true =>
+        simp only []
+        rw [discardWith_current_state w h x x.id g d hp hl]
+        apply sync_setObj _ _ _ (fun q hq => by simp at hq)
+        exact sync_deleted hS x.id _ rfl rfl rfl
+      | false =>
+        simp only [request_nofault _ _ hp, serve_doc_quote]
+        simp only [serveDoc, hl]
+        rw [classify_head_ok _ _ _ (by decide)]
+        simp only []
+        rw [discardWith_current_state { w with log := w.log ++ [_] } h x x.id g d hp hl]
+        apply sync_setObj _ _ _ (fun q hq => by simp at hq)
+        exact sync_deleted hS x.id _ rfl rfl rfl
+
+theorem c16_sync_local (w : W) (hS : Sync w) :
+    (∀ i d, Sync (mk w i d).1) ∧ (∀ h d, Sync (modify w h d).1) ∧ (∀ h, Sync (drop w h).1) := by
+  refine ⟨fun i d => ?_, fun h d => ?_, fun h => ?_⟩
+  · refine ⟨fun j g d' hl => hS.revs j g d' hl, fun h' x' q hx' hq => ?_⟩
+    by_cases e : h' = w.cl.next
+    · subst e
+      simp [getObj, mk] at hx'
+      subst hx'
+      simp at hq
+    · simp only [getObj, mk] at hx'
+      rw [AList.get_set_other _ _ e] at hx'
+      exact hS.src h' x' q hx' hq
+  · unfold modify
+    cases hx : getObj w h with
+    | none => exact hS
+    | some x => exact sync_setObj hS _ _ (fun q hq => hS.src h x q hx hq)
+  · refine ⟨fun j g d' hl => hS.revs j g d' hl, fun h' x' q hx' hq => ?_⟩
+    simp only [getObj, drop] at hx'
+    by_cases e : h' = h
+    · subst e; rw [get_eraseKey_same] at hx'; cases hx'
+    · rw [get_eraseKey_other _ e] at hx'
+      exact hS.src h' x' q hx' hq
+
+theorem c16_sync_iterLoop (ids : List Ident) : ∀ (w : W) (acc : List Nat), Sync w → w.plan = [] →
+    (∀ i ∈ ids, (live w.sv i).isSome) →
+    Sync (iterLoop w ids acc).1 ∧ (iterLoop w ids acc).1.sv = w.sv ∧
+    ∃ hs, (iterLoop w ids acc).2 = .handles (acc.reverse ++ hs) none ∧ hs.length = ids.length := by
+  induction ids with
+  | nil => intro w acc hS _ _; exact ⟨hS, rfl, [], by simp [iterLoop], rfl⟩
+  | cons i rest ih =>
+    intro w acc hS hp hall
+    have hli := hall i List.mem_cons_self
+    cases hl : live w.sv i with
+    | none => simp [hl] at hli
+    | some p =>
+      obtain ⟨g, d⟩ := p
+      obtain ⟨h, ho, _, hsv, _⟩ := c16_get_reads_live w i g d hp hl
+      obtain ⟨hS', hp', _⟩ := c16_sync_get w hS i hp
+      unfold iterLoop
+      have hpair : getByCouchId w i = ((getByCouchId w i).1, .handle h) := by rw [← ho]
+      rw [hpair]
+      simp only []
+      obtain ⟨a, b, hs, c, e⟩ := ih (getByCouchId w i).1 (h :: acc) hS' hp'
+        (fun j hj => by rw [hsv]; exact hall j (List.mem_cons_of_mem _ hj))
+      refine ⟨a, by rw [b, hsv], h :: hs, ?_, by simp [e]⟩
+      rw [c]; simp
+
+/-- `list(store)` of a single client: every live document is yielded (one object per listed identifier, no exception), the
+    server is untouched -/
+theorem c16_map_iter (w : W) (hS : Sync w) (hn : DocsInv w.sv) (hp : w.plan = []) :
+    Sync (iter w).1 ∧ (iter w).1.sv = w.sv ∧
+    ∃ hs, (iter w).2 = .handles hs none ∧ hs.length = (liveIds w.sv).length := by
+  unfold iter
+  simp only [request_nofault _ _ hp]
+  simp only [serve]
+  rw [classify_ok _ _ _ _ (by decide) (by decide) (by simp) (by simp)]
+  simp only []
+  have hall : ∀ i ∈ liveIds w.sv, (live w.sv i).isSome := by
+    intro i hi
+    have := ((c16_liveIds_enumerates w hn).2 i).1 hi
+    unfold abs at this
+    cases hl : live w.sv i with
+    | none => simp [hl] at this
+    | some p => simp
+  obtain ⟨a, b, hs, c, e⟩ := c16_sync_iterLoop (liveIds w.sv)
+    { w with log := w.log ++ [(⟨.GET, .allDocs, none, none⟩, Wire.resp ⟨200, true, .rows (liveIds w.sv), none⟩)] } []
+    (sync_congr (w := w) rfl rfl rfl hS) hp hall
+  exact ⟨a, b, hs, by simpa using c, e⟩
+
+/-- a history of SDK calls only, none of them faulted -/
+def SingleClient : List Op → Prop
+  | [] => True
+  | .client _ plan :: r => plan = [] ∧ SingleClient r
+  | _ :: _ => False
+
+theorem c16_sync_step (w : W) (hS : Sync w) (hn : DocsInv w.sv) (op : COp) : Sync (step w (.client op [])).1 := by
+  have hS' : Sync ({ w with plan := [], log := [] } : W) := sync_congr (w := w) rfl rfl rfl hS
+  cases op with
+  | mk i d => exact (c16_sync_local _ hS').1 i d
+  | modify h d => exact (c16_sync_local _ hS').2.1 h d
+  | drop h => exact (c16_sync_local _ hS').2.2 h
+  | add h => exact c16_sync_add _ hS' h rfl
+  | get i => exact (c16_sync_get _ hS' i rfl).1
+  | commit h => exact c16_sync_commit _ hS' h rfl
+  | update h => exact c16_sync_update _ hS' h rfl
+  | discard h s => exact c16_sync_discard _ hS' h s rfl
+  | contains i =>
+    obtain ⟨_, b, c⟩ := c16_map_contains ({ w with plan := [], log := [] } : W) i rfl
+    show Sync (contains { w with plan := [], log := [] } i).1
+    exact sync_congr (congrArg Client.revs c) (congrArg Client.objs c) b hS'
+  | len =>
+    obtain ⟨_, b, c⟩ := c16_map_len ({ w with plan := [], log := [] } : W) rfl
+    show Sync (len { w with plan := [], log := [] }).1
+    exact sync_congr (congrArg Client.revs c) (congrArg Client.objs c) b hS'
+  | iter => exact (c16_map_iter _ hS' hn rfl).1
+
+private theorem docsInv_step (w : W) (op : Op) (hn : DocsInv w.sv) : DocsInv (step w op).1.sv := by
+  obtain ⟨A, hf⟩ := frame_step w op
+  exact hf.2.2 hn
+
+/-- THE SINGLE-CLIENT INVARIANT holds after every fault-free history of SDK calls; with the per-call theorems `c16_map_*`
+    above (each stated under `Sync`) this is the refinement of the store to a persistent map `Ident → Option Data`:
+    `add` ↦ insert-if-absent else KeyError, `get` ↦ lookup else KeyError, `commit` ↦ overwrite, `update` ↦ read,
+    `discard` ↦ delete else KeyError, `contains` ↦ membership, `len`/`iter` ↦ size / enumeration of the domain. -/
+theorem c16_map_invariant (ops : List Op) : ∀ w, Sync w → DocsInv w.sv → SingleClient ops →
+    Sync (run w ops) ∧ DocsInv (run w ops).sv := by
+  induction ops with
+  | nil => intro w hS hn _; exact ⟨hS, hn⟩
+  | cons op r ih =>
+    intro w hS hn hsc
+    cases op with
+    | client c plan =>
+      obtain ⟨hp, hr⟩ := hsc
+      subst hp
+      exact ih _ (c16_sync_step w hS hn c) (docsInv_step w _ hn) hr
+    | extPut i d => exact absurd hsc (by simp [SingleClient])
+    | extDelete i => exact absurd hsc (by simp [SingleClient])
+
+theorem c16_map_init : Sync init ∧ DocsInv init.sv := by
+  refine ⟨⟨fun i g d hl => ?_, fun h x q hx _ => ?_⟩, ?_⟩
+  · simp [init, live, lookup] at hl
+  · simp [init, getObj] at hx
+  · simp [init, DocsInv, AList.keys]
+
+theorem c16_map_run (ops : List Op) (h : SingleClient ops) : Sync (run init ops) ∧ DocsInv (run init ops).sv :=
+  c16_map_invariant ops init c16_map_init.1 c16_map_init.2 h
+
+
+
+/-! ## 8. Non-vacuity: the hypotheses of the theorems above are satisfiable, and what they exclude really fails -/
+
+/-- id "a" (one byte), id "/" (needs quoting) -/
+def idA : Ident := [97]
+def idSlash : Ident := [47]
+
+example : quote idSlash = [37, 50, 70] ∧ unquote (quote idSlash) = idSlash := by decide
+
+/-- the SDK adds "a", an external writer overwrites it, the SDK commits its stale replica -/
+def staleHist : List Op := [.client (.mk idA 0) [], .client (.add 0) []]
+
+-- hypotheses of `c16_no_lost_update` hold on a concrete interleaving, and its conclusion is the conflict error
+example :
+    let w := run (step (run init staleHist) (.extPut idA 5)).1 [.client (.mk idSlash 1) [], .client (.add 1) [], .extPut idSlash 9]
+    Avoids idA (step (run init staleHist) (.extPut idA 5)).1 [.client (.mk idSlash 1) [], .client (.add 1) [], .extPut idSlash 9] ∧
+    (∃ x, getObj w 0 = some x ∧ x.source = some (quote idA)) ∧
+    (step w (.client (.commit 0) [])).2 = .raise .conflict ∧
+    live (step w (.client (.commit 0) [])).1.sv idA = some (2, 5) := by
+  refine ⟨?_, ?_, ?_, ?_⟩
+  · refine ⟨fun h => h, ?_, fun h => h, trivial⟩
+    intro h
+    obtain ⟨x, hx, hq⟩ := h
+    have h2 : getObj ({ (step (step (run init staleHist) (.extPut idA 5)).1 (.client (.mk idSlash 1) [])).1 with
+        plan := [], log := [] } : W) 1 = some ⟨idSlash, 1, none⟩ := by decide
+    rw [h2] at hx
+    cases hx
+    revert hq; decide
+  · exact ⟨⟨idA, 0, some (quote idA)⟩, by decide, by decide⟩
+  · decide
+  · decide
+
+-- hypotheses of `c16_commit_visible` / `c16_commit_then_read`: an up-to-date replica
+example :
+    let w := run init (staleHist ++ [.client (.modify 0 3) []])
+    (∃ x, getObj w 0 = some x ∧ x.source = some (quote idA) ∧ x.data = 3) ∧ w.plan = [] ∧
+    AList.get (quote idA) w.cl.revs = some 1 ∧ live w.sv idA = some (1, 0) ∧
+    (commit w 0).2 = .unit ∧ live (commit w 0).1.sv idA = some (2, 3) := by decide
+
+-- `Behind`, `RevInv`, `Sync`, `DocsInv`, `Unprocessed`, `SingleClient` are inhabited by non-trivial worlds
+example : Behind (step (run init staleHist) (.extPut idA 5)).1 idA ∧ (run init staleHist).cl.revs ≠ [] :=
+  ⟨c16_ext_put_behind _ _ _ (c16_inv_run _), by decide⟩
+
+example : SingleClient staleHist ∧ (run init staleHist).sv.docs ≠ [] := ⟨⟨rfl, rfl, trivial⟩, by decide⟩
+
+example : Unprocessed [none, some ⟨.status 500 true true, false⟩] := by
+  intro f hf; simp at hf; subst hf; rfl
+
+example : (FaultKind.status 500 true true).genuine ∧ (FaultKind.status 404 false false).genuine ∧
+    (FaultKind.transport .protocol).genuine ∧ (FaultKind.status 200 true false).genuine := by
+  refine ⟨?_, ?_, ?_, ?_⟩ <;> intro m b <;> cases m <;> simp [classify, faultWire]
+
+-- … and what `genuine` excludes really breaks the statement: a 2xx answer with a JSON body is success for `discard`
+example :
+    let w : W := { (step (run init staleHist) (.extPut idA 5)).1 with plan := [some ⟨.status 200 true true, false⟩] }
+    (discard w 0 true).2 = .unit ∧ (discard w 0 true).1.sv = w.sv := by decide
+
+-- protocol assumption of `c16_errors_classify`: a non-2xx JSON body that is not error-shaped leaks a KeyError
+example : classify .GET (.resp ⟨500, true, .dbInfo 0, none⟩) = .keyError := by decide
+
+-- a processed-but-lost answer is why atomicity needs `Unprocessed`: the add happened, the call raised
+example :
+    let w : W := { (step init (.client (.mk idA 0) [])).1 with plan := [some ⟨.transport .protocol, true⟩] }
+    (add w 0).2 = .raise .connectionError ∧ live (add w 0).1.sv idA = some (1, 0) := by decide
+
+-- map refinement hypotheses: present / missing documents
+example : abs (run init staleHist) idA = some 0 ∧ abs (run init staleHist) idSlash = none := by decide
 
 
 end Basyx.Couch
